@@ -98,6 +98,10 @@ def unmapCount (rt : RT) (s : Nat) (nf : Option Nat) : Nat :=
 def validMask (rt : RT) : Nat := (if (getS rt 0).valid then 1 else 0) + (if (getS rt 1).valid then 2 else 0)
 
 def headOp (rt : RT) : Option COp := rt.client.prog.head?
+/-- `filter.is_stopping = 1` for every valid stream (first loop of `acquire_start`'s error path) -/
+def markFlt (st : Stream) : Stream := if st.valid then { st with fltStopping := true } else st
+def stopAllFilters (rt : RT) : RT := { rt with streams := rt.streams.map markFlt }
+
 def popOp (rt : RT) : RT := { rt with client := { rt.client with prog := rt.client.prog.tail } }
 def atPc (rt : RT) (pc : CPc) : Bool := rt.client.pc = pc
 
@@ -110,7 +114,10 @@ def isStartAt (pc : CPc) : Option Nat := match pc with | .startAt s => some s | 
 def clientBase : List (Act RT) :=
   [ -- ---- fetch the next call ----
     { name := "cl.end", guard := fun rt => rt.client.pc = .next && rt.client.prog.isEmpty, upd := fun rt => setPc rt .done },
-    { name := "cl.start", guard := fun rt => isOp rt .start, upd := fun rt => setPc (popOp rt) (.startAt 0) },
+    { name := "cl.start", guard := fun rt => isOp rt .start && (getState rt).state ≠ .running, upd := fun rt => setPc (popOp (getState rt)) (.startAt 0) },
+    -- an acquisition is in progress: the call is refused and that acquisition is left alone
+    { name := "cl.start.refused", guard := fun rt => isOp rt .start && (getState rt).state = .running, upd := fun rt => popOp (getState rt),
+      out := fun _ => ["API start -> err"] },
     { name := "cl.stop", guard := fun rt => isOp rt .stop,
       upd := fun rt => { (popOp rt) with client := { (popOp rt).client with pc := .stopAt 0, aborting := false } } },
     { name := "cl.abort", guard := fun rt => isOp rt .abort,
@@ -154,8 +161,8 @@ def clientBase : List (Act RT) :=
         | _ => rt }
   ]
 
-/-- actions of the client concerning stream `s` -/
-def clientPerStream (s : Nat) : List (Act RT) :=
+/-- `acquire_map_read`, `acquire_unmap_read` and the monitoring loop of the harness, stream `s` -/
+def clMon (s : Nat) : List (Act RT) :=
   [
     -- ---- acquire_map_read ----
     { name := "cl.map.mapped", guard := fun rt => isOp rt (.map s) && monMapped rt s, upd := fun rt => popOp rt,
@@ -182,14 +189,16 @@ def clientPerStream (s : Nat) : List (Act RT) :=
       upd := fun rt => { (getState rt) with client := { rt.client with pc := .mapLock s, inMonwait := true } } },
     { name := "cl.monwait.end", guard := fun rt => isOp rt (.monwait s) && (getState rt).state ≠ .running,
       upd := fun rt => { (popOp (getState rt)) with client := { (popOp (getState rt)).client with inMonwait := false } },
-      out := fun rt => [s!"API monwait {s} -> {(getState rt).state.name}"] }
-  ]
-  ++
-  [
+      out := fun rt => [s!"API monwait {s} -> {(getState rt).state.name}"] },
     { name := "cl.unmap.notify", guard := fun rt => atPc rt (.unmapNotify s), upd := fun rt => setPc (modS rt s notifySink) (.afterUnmap s),
       out := fun rt => [rt.client.pendingSay] },
     { name := "cl.unmap.ret", guard := fun rt => atPc rt (.afterUnmap s) && !rt.client.inMonwait, upd := fun rt => setPc rt .next },
-    { name := "cl.unmap.monwait", guard := fun rt => atPc rt (.afterUnmap s) && rt.client.inMonwait, upd := fun rt => setPc rt (.sleeping 1) },
+    { name := "cl.unmap.monwait", guard := fun rt => atPc rt (.afterUnmap s) && rt.client.inMonwait, upd := fun rt => setPc rt (.sleeping 1) }
+  ]
+
+/-- `acquire_configure` (same devices), stream `s` -/
+def clCfg (s : Nat) : List (Act RT) :=
+  [
     -- ---- acquire_configure (same devices), stream by stream ----
     { name := "cl.cfg.at", guard := fun rt => atPc rt (.cfgAt s) && (nextValid rt s).isSome, upd := fun rt => setPc rt (.cfgCamSet (nv rt s)) },
     { name := "cl.cfg.end", guard := fun rt => atPc rt (.cfgAt s) && (nextValid rt s).isNone,
@@ -202,7 +211,12 @@ def clientPerStream (s : Nat) : List (Act RT) :=
       upd := fun rt => setPc (modS rt s fun st => { st with sto := { st.sto with state := .armed } }) (.cfgGetShape s),
       out := fun _ => [s!"DRV {stoDev s} set -> armed"] },
     { name := "cl.cfg.shape", guard := fun rt => atPc rt (.cfgGetShape s),
-      upd := fun rt => setPc (modS rt s fun st => { st with maxFrames := rt.client.cfgN.getD s st.maxFrames }) (.cfgAt (s + 1)) },
+      upd := fun rt => setPc (modS rt s fun st => { st with maxFrames := rt.client.cfgN.getD s st.maxFrames }) (.cfgAt (s + 1)) }
+  ]
+
+/-- `acquire_start`, stream `s` -/
+def clStart (s : Nat) : List (Act RT) :=
+  [
     -- ---- acquire_start, stream by stream ----
     { name := "cl.start.at", guard := fun rt => atPc rt (.startAt s) && (nextValid rt s).isSome, upd := fun rt => setPc rt (.stoStart (nv rt s)) },
     { name := "cl.start.end", guard := fun rt => atPc rt (.startAt s) && (nextValid rt s).isNone,
@@ -220,22 +234,35 @@ def clientPerStream (s : Nat) : List (Act RT) :=
     -- video_source_start: the camera must be Armed
     { name := "cl.start.srccheck.ok", guard := fun rt => atPc rt (.srcCheck s) && (getS rt s).cam.state = .armed, upd := fun rt => setPc rt (.camStart s) },
     { name := "cl.start.srccheck.err", guard := fun rt => atPc rt (.srcCheck s) && (getS rt s).cam.state ≠ .armed,
-      upd := fun rt => { rt with client := { rt.client with pc := .startErr 0, startFailed := true, aborting := false } } },
+      upd := fun rt => { (stopAllFilters rt) with client := { rt.client with pc := .abortAt 0, startFailed := true, aborting := false } } },
     { name := "cl.start.cam", guard := fun rt => atPc rt (.camStart s),
-      upd := fun rt => setPc (modS rt s fun st => { st with cam := { st.cam with state := .running, run := st.cam.run + 1, frame := 0, ncalls := 0, drvStarts := st.cam.drvStarts + 1 }, srcStopping := false, srcRunning := true }) (.createSrc s),
+      upd := fun rt => setPc (modS rt s fun st => { st with cam := { st.cam with state := .running, run := st.cam.run + 1, frame := 0, ncalls := 0, drvStarts := st.cam.drvStarts + 1, failed := false }, srcStopping := false, srcRunning := true }) (.createSrc s),
       out := fun rt => [s!"DRV {camDev s} start run={(getS rt s).cam.run + 1} -> ok"] },
     { name := "cl.start.src", guard := fun rt => atPc rt (.createSrc s),
       upd := fun rt => { (modS rt s fun st => { st with tidSrc := rt.nthreads, src := {} }) with
-                          nthreads := rt.nthreads + 1, client := { rt.client with pc := .startAt (s + 1) } } },
-    -- acquire_start's error path: signal the workers of every valid stream, stop its camera, then acquire_stop
+                          nthreads := rt.nthreads + 1, client := { rt.client with pc := .startAt (s + 1) } } }
+  ]
+
+/-- `acquire_start`'s error path -/
+def clErr (s : Nat) : List (Act RT) :=
+  [
+    -- acquire_start's error path: tell every valid stream's filter to stop, acquire_abort (which ends in acquire_stop), and
+    -- only then camera_stop for every valid stream (the HAL calls the driver only if the camera is still Running)
     { name := "cl.starterr.at.running", guard := fun rt => atPc rt (.startErr s) && (nextValid rt s).isSome && (getS rt (nv rt s)).cam.state = .running,
-      upd := fun rt => setPc (modS rt (nv rt s) fun st => { st with srcStopping := true, fltStopping := true }) (.errCamStop (nv rt s)) },
+      upd := fun rt => setPc rt (.errCamStop (nv rt s)) },
     { name := "cl.starterr.at.idle", guard := fun rt => atPc rt (.startErr s) && (nextValid rt s).isSome && (getS rt (nv rt s)).cam.state ≠ .running,
-      upd := fun rt => setPc (modS rt (nv rt s) fun st => { st with srcStopping := true, fltStopping := true }) (.startErr (nv rt s + 1)) },
-    { name := "cl.starterr.end", guard := fun rt => atPc rt (.startErr s) && (nextValid rt s).isNone, upd := fun rt => setPc rt (.stopAt 0) },
+      upd := fun rt => setPc rt (.startErr (nv rt s + 1)) },
+    { name := "cl.starterr.end", guard := fun rt => atPc rt (.startErr s) && (nextValid rt s).isNone,
+      upd := fun rt => { rt with state := .awaiting, client := { rt.client with pc := .next, startFailed := false } },
+      out := fun _ => ["API start -> err"] },
     { name := "cl.starterr.camstop", guard := fun rt => atPc rt (.errCamStop s),
       upd := fun rt => setPc (modS rt s fun st => { st with cam := { st.cam with state := .armed, drvStops := st.cam.drvStops + 1 } }) (.startErr (s + 1)),
-      out := fun _ => [s!"DRV {camDev s} stop -> ok"] },
+      out := fun _ => [s!"DRV {camDev s} stop -> ok"] }
+  ]
+
+/-- `acquire_abort`'s first loop and `acquire_stop`'s joins, stream `s` -/
+def clStop (s : Nat) : List (Act RT) :=
+  [
     -- ---- acquire_abort: per valid stream: source.is_stopping = 1; refuse writes; trigger; then acquire_stop ----
     { name := "cl.abort.at", guard := fun rt => atPc rt (.abortAt s) && (nextValid rt s).isSome,
       upd := fun rt => setPc (modS rt (nv rt s) fun st => { st with srcStopping := true }) (.accLock (nv rt s) false 1) },
@@ -243,14 +270,18 @@ def clientPerStream (s : Nat) : List (Act RT) :=
     -- ---- acquire_stop, stream by stream ----
     { name := "cl.stop.at", guard := fun rt => atPc rt (.stopAt s) && (nextValid rt s).isSome, upd := fun rt => setPc rt (.joinSrc (nv rt s)) },
     { name := "cl.stop.end.err", guard := fun rt => atPc rt (.stopAt s) && (nextValid rt s).isNone && rt.client.startFailed,
-      upd := fun rt => { rt with state := .awaiting, client := { rt.client with pc := .next, startFailed := false } },
-      out := fun _ => ["API start -> err"] },
+      upd := fun rt => setPc { rt with state := .armed } (.startErr 0) },
     { name := "cl.stop.end", guard := fun rt => atPc rt (.stopAt s) && (nextValid rt s).isNone && !rt.client.startFailed,
       upd := fun rt => { rt with state := .armed, client := { rt.client with pc := .next, aborting := false } },
       out := fun rt => [if rt.client.aborting then "API abort -> ok" else "API stop -> ok"] },
     { name := "cl.join.src", guard := fun rt => atPc rt (.joinSrc s) && (getS rt s).src.pc = .done, upd := fun rt => setPc rt (.joinFlt s) },
     { name := "cl.join.flt", guard := fun rt => atPc rt (.joinFlt s) && (getS rt s).flt.pc = .done, upd := fun rt => setPc rt (.joinSnk s) },
-    { name := "cl.join.snk", guard := fun rt => atPc rt (.joinSnk s) && (getS rt s).snk.pc = .done, upd := fun rt => setPc rt (.accLock s true 2) },
+    { name := "cl.join.snk", guard := fun rt => atPc rt (.joinSnk s) && (getS rt s).snk.pc = .done, upd := fun rt => setPc rt (.accLock s true 2) }
+  ]
+
+/-- `channel_accept_writes(sink.in of s, v)` and what follows it -/
+def clAcc (s : Nat) : List (Act RT) :=
+  [
     -- channel_accept_writes(sink.in, v) and what follows it
     { name := "cl.acc.t0", guard := fun rt => atPc rt (.accLock s true 0) && sinkLockFree (getS rt s),
       upd := fun rt => setPc (modS rt s fun st => { st with sinkCh := (chanOp st.sinkCh (.accept true)).1 }) (.accNotify s 0) },
@@ -265,6 +296,10 @@ def clientPerStream (s : Nat) : List (Act RT) :=
       out := fun rt => if (getS rt s).cam.state = .running then [s!"DRV {camDev s} trigger -> ok"] else [] },
     { name := "cl.acc.notify.stop", guard := fun rt => atPc rt (.accNotify s 2), upd := fun rt => setPc (modS rt s notifySink) (.flushAt s 2) }
   ]
+
+/-- actions of the client concerning stream `s` -/
+def clientPerStream (s : Nat) : List (Act RT) :=
+  clMon s ++ clCfg s ++ clStart s ++ clErr s ++ clStop s ++ clAcc s
 
 /-- `flush_reader` for reader `r` of stream `s`: 2 = the filter's on `filter.in`, 0 = the sink's and 1 = the monitor's on `sink.in` -/
 def clientFlush (s r : Nat) : List (Act RT) :=
